@@ -44,8 +44,16 @@ def run_instant(case):
                pp_doy=doy, pp_sod=sod, att_doy=doy, att_ms=ms)
     # a second polarisation of the same scan whose lines start a fraction of a pulse interval later, inside the same millisecond
     us2 = us + 367 if us + 367 < 1000 else us - 367
+    # the second line of the first image is acquired 2 s after the first one: for instants in the last two seconds of a day it belongs to
+    # the NEXT day (next year after day 365 / 366) while both lines are fetched in one request (records_per_chunk = 2)
+    if "later2s" in e:   # computed by the specification (Calendar!Later)
+        y2, doy2, ms2 = e["later2s"]["y"], e["later2s"]["doy"], e["later2s"]["ms"]
+    else:
+        tot = e["daynumber"] * 86400000 + ms + 2000
+        d2 = dt.date(2000, 1, 1) + dt.timedelta(days=tot // 86400000)
+        y2, doy2, ms2 = d2.year, (d2 - dt.date(d2.year, 1, 1)).days + 1, tot % 86400000
     lo = {(0, 0, "sensor_acquisition_date"): (y, doy, ms), (0, 0, "sensor_acquisition_date_microseconds"): ms * 1000 + us,
-          (0, 1, "sensor_acquisition_date"): (y, doy, ms), (0, 1, "sensor_acquisition_date_microseconds"): ms * 1000 + us,
+          (0, 1, "sensor_acquisition_date"): (y2, doy2, ms2), (0, 1, "sensor_acquisition_date_microseconds"): ms2 * 1000 + us,
           (1, 0, "sensor_acquisition_date"): (y, doy, ms), (1, 0, "sensor_acquisition_date_microseconds"): ms * 1000 + us2,
           (1, 1, "sensor_acquisition_date"): (y, doy, ms), (1, 1, "sensor_acquisition_date_microseconds"): ms * 1000 + us2}
     b = product.build_product(level="1.1", images=(("HH", None, 2, 1), ("VH", None, 2, 1)), seed=case["seed"], ctx=ctx, line_overrides=lo, leader=dict(np=2))
@@ -55,6 +63,19 @@ def run_instant(case):
     want_ms = day_ns + ms * 10**6
     want_us = want_ms + us * 1000
     try:
+        import contextlib
+        import decimal
+
+        import numpy as np
+
+        # ambient state of the calling thread that belongs to the application: a lowered decimal precision (the first example of the
+        # decimal documentation sets prec = 6), NumPy floating-point warnings turned into errors
+        amb = contextlib.ExitStack()
+        out["ambient"] = ("none", "decimal-prec-6", "none", "numpy-errors-raise", "decimal-prec-9")[case["seed"] % 5]
+        if out["ambient"].startswith("decimal"):
+            amb.enter_context(decimal.localcontext()).prec = int(out["ambient"].rsplit("-", 1)[1])
+        elif out["ambient"] == "numpy-errors-raise":
+            amb.enter_context(np.errstate(all="raise"))
         try:
             # the three ways a tree comes into being: parsed; parsed while its index is written; served from that index
             how = (case["seed"] // 6) % 3
@@ -67,6 +88,8 @@ def run_instant(case):
         except BaseException as ex:  # noqa: B902
             out["bad"].append(("open", f"{type(ex).__name__}: {str(ex)[:150]}", None))
             return out
+        finally:
+            amb.close()
 
         def ns(v):
             import numpy as np
@@ -82,7 +105,8 @@ def run_instant(case):
         obs = {
             "image-line-ms": (ns(img["sensor_acquisition_date"].values[0]), want_ms),
             "image-line-us": (ns(img["sensor_acquisition_date_microseconds"].values[0]), want_us),
-            "image-line2-us": (ns(img["sensor_acquisition_date_microseconds"].values[1]), want_us),
+            "image-line2-us": (ns(img["sensor_acquisition_date_microseconds"].values[1]), want_us + 2000 * 10**6),
+            "image-line2-ms": (ns(img["sensor_acquisition_date"].values[1]), want_ms + 2000 * 10**6),
             "image2-line-us": (ns(tree["imagery/VH"]["sensor_acquisition_date_microseconds"].values[0]), want_ms + us2 * 1000),
             "image2-line-ms": (ns(tree["imagery/VH"]["sensor_acquisition_date"].values[1]), want_ms),
             "attitude-time": (ns(tree["metadata/attitude/attitude"]["time"].values[0]), want_ms),
@@ -140,20 +164,20 @@ def body(chk):
     results = checklib.pmap(run_instant, cases, chk.scratch, chunksize=8)
     for res in results:
         i = res["case"]["inst"]
-        chk.count(11, f"{i['y']}-{i['doy']}-{i['ms']}-{i['us']}")
+        chk.count(12, f"{i['y']}-{i['doy']}-{i['ms']}-{i['us']}")
         seen = set()
         for key, msg, d in res["bad"]:
             if key in seen:
                 continue
             seen.add(key)
-            chk.violation(f"calendar:{key}", f"instant {i['y']} day {i['doy']} ms {i['ms']} us {i['us']} (process TZ {res.get('tz')}): {msg}", {"instant": i})
+            chk.violation(f"calendar:{key}", f"instant {i['y']} day {i['doy']} ms {i['ms']} us {i['us']} (process TZ {res.get('tz')}, ambient {res.get('ambient')}): {msg}", {"instant": i})
     chk.traces(len(results))
     chk.sample({"instant": insts[len(insts) // 3], "fields_written": ["image line ydms + us", "attitude points", "platform position first point",
                                                                        "scene centre", "volume creation"], "mismatches": results[len(insts) // 3]["bad"][:2]})
     chk.assumptions += ["volume creation time has 10 ms resolution (16-character field), platform position ms (decimal seconds), scene centre us",
                         "random instants are cross-computed with Python's datetime (doy 1 = 1 January)"]
     chk.finish(rule="instants = every (year, day-of-year, ms, us) of the TLC family (7 years x boundary days x 4 times x 3 us remainders) + seeded "
-                    "random instants 2014..2049; each written into 9 read-back points of one product; evaluations = read-back points; distinct = instants",
+                    "random instants 2014..2049; each written into 12 read-back points of one product (the second line of one image 2 s later: across midnight / new year inside one request for the last instants of a day), opened under a rotating ambient state (decimal precision 6 / 9, NumPy errors raised); evaluations = read-back points; distinct = instants",
                exhaustive=False, extra={"tlc_instants": len(insts), "random_instants": len(extra)})
 
 
